@@ -75,12 +75,20 @@ class Report:
     def broke(self, reason):
         self.broken.append(reason)
 
+    def counts_as(self, rule, n):
+        """another rule has decided what `n` instances of `rule` decide on the usual form of the code (the floor of `rule` then refers to both)"""
+        if not hasattr(self, "stand_ins"):
+            self.stand_ins = {}
+        self.stand_ins[rule] = self.stand_ins.get(rule, 0) + n
+
     # -- finishing ---------------------------------------------------------
     def finish(self):
         floors = load_floors()
         counts = {}
         for i in self.instances:
             counts[i["rule"]] = counts.get(i["rule"], 0) + 1
+        for rid, n in getattr(self, "stand_ins", {}).items():
+            counts[rid] = counts.get(rid, 0) + n
         for rid in self.rules:
             need = floors.get(rid)
             if need is None:
